@@ -92,7 +92,7 @@ RemoveAllOf(seq, x) == SelectSeq(seq, LAMBDA y : y # x)
    writer: every writer operation ignores it).  The result is a SET
    of configurations: a singleton except for removal from a list holding the writer twice,
    where the documentation does not say whether one or all occurrences go.                    *)
-SetterKinds == {"JSONMode", "ColorMode", "UTCMode", "TimeFormat", "Level", "Attrs", "Attrs1", "SetKV", "Attrs0", "Skip", "CtxKeys", "CtxReset",
+SetterKinds == {"JSONMode", "ColorMode", "UTCMode", "TimeFormat", "Level", "Attrs", "Attrs1", "SetKV", "Attrs0", "AttrsN", "Skip", "CtxKeys", "CtxReset",
                 "Writer", "AddWriter", "RemoveWriter", "ErrorWriter", "AddErrorWriter",
                 "RemoveErrorWriter", "AddLevelWriter", "RemoveLevelWriter", "ResetLevelWriter",
                 "ResetLevelWriters", "ResetWriters"}
@@ -110,6 +110,8 @@ ApplyK(c, k, a, b) ==
       [] k = "Level" -> {[c EXCEPT !.level = a]}
       \* SetAttrs(attr) / SetAttrs1(Attrs{attr}) / Set(key, value): all append one attribute
       [] k \in {"Attrs", "Attrs1", "SetKV"} -> {[c EXCEPT !.attrs = Append(c.attrs, <<a, b>>)]}
+      \* SetAttrs with a attributes at once: keys b, b+1, ..., values 1..a
+      [] k = "AttrsN" -> {[c EXCEPT !.attrs = c.attrs \o [x \in 1..a |-> <<b + x - 1, x>>]]}
       \* an EMPTY list given to SetAttrs/SetAttrs1/Set/SetContextKeys (With...: still a new child)
       [] k = "Attrs0" -> {c}
       [] k = "Skip" -> {[c EXCEPT !.skip = a]}
@@ -284,7 +286,11 @@ Dest(s, l, r) ==
    Leaves() flattens the merged tree to <<path, value>> in printed order (empty groups vanish).   *)
 AKeys(as) == {as[x][1] : x \in DOMAIN as}
 LastVal(as, k) == as[CHOOSE x \in DOMAIN as : as[x][1] = k /\ \A y \in DOMAIN as : y > x => as[y][1] # k][2]
-Merge(as) == LET ks == SetToSortSeq(AKeys(as), <) IN [x \in 1..Len(ks) |-> <<ks[x], LastVal(as, ks[x])>>]
+\* (computed with one pass, key -> last value; LastVal above is the declarative reading used by MergeOK)
+LastMap(as) == LET F[x \in 0..Len(as)] == IF x = 0 THEN <<>> ELSE (as[x][1] :> as[x][2]) @@ F[x - 1] IN F[Len(as)]
+Merge(as) == LET m == LastMap(as)
+                 ks == SetToSortSeq(DOMAIN m, <)
+             IN [x \in 1..Len(ks) |-> <<ks[x], m[ks[x]]>>]
 
 RECURSIVE Leaves(_, _)
 Leaves(as, prefix) ==
@@ -319,7 +325,8 @@ Emits(s, l, r) == Admit(s.cfg[l].level, r, s.dbg, s.treat)
    occurrence counts repeated list entries).                                                      *)
 Occ(d, j) == Cardinality({x \in 1..j : d[x] = d[j]})
 Attempts(d, phase, fails) ==
-    [j \in 1..Len(d) |-> [w |-> d[j], ph |-> phase, fail |-> (<<phase, d[j], Occ(d, j)>> \in fails)]]
+    [j \in 1..Len(d) |-> [w |-> d[j], ph |-> phase, fail |-> (<<phase, d[j], Occ(d, j)>> \in fails),
+                            whole |-> TRUE]]        \* every attempt is handed the complete record
 AnyFail(as) == \E j \in 1..Len(as) : as[j].fail
 WantsDiag(s, l, r, a1) == AnyFail(a1) /\ r # Warn /\ Emits(s, l, Warn)
 Deliver(s, l, r, fails) ==
@@ -373,11 +380,12 @@ ArgB == {ab[2] : ab \in ArgPairs}
 Room(l, k, b) ==
     /\ l \in Live(st)
     /\ k \in {"Attrs", "Attrs1", "SetKV"} => Len(st.cfg[l].attrs) < MaxList
+    /\ k = "AttrsN" => st.cfg[l].attrs = <<>>
     /\ k = "CtxKeys" => Len(st.cfg[l].ctx) < MaxList
     /\ k = "AddWriter" => Len(st.cfg[l].wn) < MaxList
     /\ k = "AddErrorWriter" => Len(st.cfg[l].we) < MaxList
     /\ k = "AddLevelWriter" => Len(st.cfg[l].wl[b]) < MaxList
-WithKinds == {"JSONMode", "ColorMode", "UTCMode", "TimeFormat", "Level", "Attrs", "Attrs1", "SetKV", "Attrs0", "Skip", "CtxKeys", "Writer", "ErrorWriter"}
+WithKinds == {"JSONMode", "ColorMode", "UTCMode", "TimeFormat", "Level", "Attrs", "Attrs1", "SetKV", "Attrs0", "AttrsN", "Skip", "CtxKeys", "Writer", "ErrorWriter"}
 
 Set(l, k, a, b) == "Set" \in Acts /\ <<a, b>> \in SetterArgs[k] /\ Room(l, k, b) /\ Do("Set", l, k, a, b)
 With(l, k, a, b) == "With" \in Acts /\ k \in WithKinds /\ st.n < MaxLoggers /\ <<a, b>> \in SetterArgs[k] /\ Do("With", l, k, a, b)
@@ -488,7 +496,8 @@ MergeOK ==
     \A l \in Live(st) : \A ci \in DOMAIN CtxVals : \A ai \in DOMAIN CallArgs :
         LET src == Sources(st, l, CtxVals[ci], CallArgs[ai])
             m == Merge(src)
-        IN /\ \A x \in 1..(Len(m) - 1) : m[x][1] < m[x + 1][1]
+        IN /\ \A x \in DOMAIN m : m[x][2] = LastVal(src, m[x][1])      \* the one-pass Merge agrees with the declarative reading
+           /\ \A x \in 1..(Len(m) - 1) : m[x][1] < m[x + 1][1]
            /\ {m[x][1] : x \in DOMAIN m} = AKeys(src)
            /\ \A x \in DOMAIN m : \E y \in DOMAIN src :
                   /\ src[y] = m[x]
